@@ -14,6 +14,9 @@ import re
 import sys
 
 from orchestrate.common import run_check, ROOT, REPO   # REPO honours VERIF_REPO (mutated trees)
+
+# the runner executes `driver gen` itself: hand it the driver of THIS tree (not a path compiled into it)
+os.environ["VERIF_C08_DRIVER"] = os.path.join(ROOT, "ocaml", "c08", "driver")
 CENSUS_FILE = os.path.join(ROOT, "checks", "c08_census.json")
 DECODE_FILES = [
     "scylla-cql/src/frame/mod.rs",
@@ -166,7 +169,8 @@ def census_diff():
     return out
 
 
-# what a run has to contain to count as the run the evidence describes (per 100 000 requested cases)
+# what a run has to contain to count as the run the evidence describes: ABSOLUTE floors (scaled down
+# only for runs below 100 000 lines); the quick tier has at least 2.5x margin on each (see docs/C08.md)
 KIND_FLOORS = {"K": 100, "W": 800, "T": 5000, "U": 8000, "M": 20000, "C": 2000, "R": 5000, "P": 2000, "S": 1000,
                "Q": 2000, "F": 2000}
 NOTRUN_CAP = 20
@@ -179,6 +183,7 @@ def post(lines, verdicts):
     if len(lines) < 5000:          # a replay
         return out
     kinds, ok_frames, typed_ok, typed_err, tablets_ok, small_ok, tuple_ok, tuple_err = {}, 0, 0, 0, 0, 0, 0, 0
+    q2_ok = q2_err = p_ok = p_err = 0
     for ln in lines:
         k = ln.split(" ", 1)[0]
         kinds[k] = kinds.get(k, 0) + 1
@@ -187,6 +192,10 @@ def post(lines, verdicts):
         typed_ok += " tv=ok" in impl
         typed_err += " tv=err@" in impl
         tablets_ok += " tb=ok:" in impl
+        q2_ok += " q2=ok:" in impl
+        q2_err += " q2=err:" in impl
+        p_ok += k == "P" and " ok Rows(" in impl
+        p_err += k == "P" and impl.lstrip().startswith("err ")
         tuple_ok += bool(re.search(r" tv=\S*,t[1-5]:ok", impl))
         tuple_err += bool(re.search(r" tv=\S*,t[1-5]:err@", impl))
         small_ok += impl.rstrip().endswith("s=ok")
@@ -198,6 +207,8 @@ def post(lines, verdicts):
     for name, got, need in (("frames decoded successfully", ok_frames, int(10000 * scale)),
                             ("typed rows ok", typed_ok, int(500 * scale)), ("typed rows failing", typed_err, int(300 * scale)),
                             ("tablet payloads accepted", tablets_ok, int(200 * scale)),
+                            ("second frame read ok", q2_ok, int(1000 * scale)), ("second frame read refused", q2_err, int(500 * scale)),
+                            ("rows behind cached metadata accepted", p_ok, int(500 * scale)), ("rows behind cached metadata refused", p_err, int(500 * scale)),
                             ("typed tuple targets ok", tuple_ok, int(200 * scale)), ("typed tuple targets failing", tuple_err, int(50 * scale)),
                             ("second run on the small stack", small_ok, int(0.95 * len(lines)))):
         if got < need:
@@ -229,6 +240,9 @@ def extra_coverage(lines, verdicts):
             classes[m.group(1)] = classes.get(m.group(1), 0) + 1
     return {
         "not_run_env": notrun,
+        "runner_env": {"VERIF_C08_DRIVER": os.environ.get("VERIF_C08_DRIVER"),
+                       "VERIF_C08_ULIMIT_KB": os.environ.get("VERIF_C08_ULIMIT_KB", "default 8388608"),
+                       "VERIF_C08_SMALL_STACK_KB": os.environ.get("VERIF_C08_SMALL_STACK_KB", "default 512")},
         "known_class_hits": classes,
         "impl_outcome_histogram": dict(sorted(outcomes.items(), key=lambda kv: -kv[1])[:60]),
         "largest_single_allocation_request_observed": maxreq,
@@ -249,14 +263,15 @@ SPEC = {
     "rule": ("K = reproducers of the repaired crash/hang/over-allocation inputs (col_count/pk_count = i32::MAX, 4 GiB body length + EOF, u16 counts without data, nested UDT/tuple headers, lz4/snappy size claims, "
              "10^5-deep list metadata, custom-type strings that hung / overflowed the stack / re-parsed exponentially, "
              "lz4 4 GiB claim, u16 counts without data); W = well-formed frames of every response kind from the extracted "
-             "encoder (seeded, incl. types nested 10..10^5); T = strict prefixes of W (every cut point for short frames); "
+             "encoder (seeded, incl. types nested 10..10^5); T = strict prefixes of W (9 random cut points per frame; exhaustive only for 9-byte frames); "
              "U = body cut with a consistent header length; M = field mutations of W (4/2-byte boundary values at random "
              "offsets, +-1, bit flips, header fields, insert/delete, random runs); C = LZ4/Snappy-compressed variants and "
              "their mutations / wrong codec; R = random bytes, plain and behind a valid header; P = a PREPARED frame followed by a "
              "Rows frame decoded with the first one's result metadata as cached_metadata (skip-metadata path), cuts and mutations; "
              "S = custom-type strings through every branch of the string parser and 40 character-level damages of each; "
              "Q = two consecutive frames (whole / cut / first one mutated) delivered by a custom AsyncRead in chunks "
-             "(1 byte at a time, 8+1+1+3, 9+1+rest, all at once, random 1..5, random 1..64), the first decoded, then the header class / rest of a second read_response_frame on the same reader compared; "
+             "(1 byte at a time, 8+1+1+3, 9+1+rest, all at once, random 1..5, random 1..64; the schedule is reported as sch=), the first decoded, then a second read_response_frame on the same reader; "
+             "both reads compared with the extracted model of the chunked reader (read_frame_chunked / reader_after on the chunks of that schedule), which must also agree with the all-at-once read_frame; "
              "F = mutations derived from the extracted encoder: one length / count / id / flag field of the AST re-encoded with a boundary value or off by one. "
              "On every accepted frame also: "
              "typed rows (rows_iter::<Row>() over CqlValue, position of the first failure; and the first of five typed tuple targets "
@@ -273,6 +288,8 @@ SPEC = {
     "assumptions": [
         "custom-type strings with non-ASCII characters are not modelled (char::is_alphanumeric / is_whitespace tables): the model declines, the tie then only checks that the implementation neither crashes nor over-allocates",
         "absence of panics in the Rust code for ALL inputs is not a theorem; it is supported by the tie",
+        "'does not terminate' is judged in CPU time of the child (30 s quick / 60 s thorough on one input, alone in a fresh child); a wall-clock stall with less CPU time is counted not-run (env-stall)",
+        "C08_alloc is proved of the model's ghost counter; the driver APPLIES that bound (largest request) and twice it (total; no theorem) to the allocator's measurements",
     ],
     "post": post,
     "extra_coverage": extra_coverage,
